@@ -336,12 +336,16 @@ class Channel(BaseChannel):
         for message in self.build_inbound_messages(break_on_empty=True,
                                                    auto_decode=auto_decode):
             consumer_tag = message._method.get('consumer_tag')
+            # A consumer being registered by another thread binds its
+            # callback under this lock; wait for it rather than fail.
+            with self.lock:
+                callback = self._consumer_callbacks[consumer_tag]
             if to_tuple:
                 # noinspection PyCallingNonCallable
-                self._consumer_callbacks[consumer_tag](*message.to_tuple())
+                callback(*message.to_tuple())
                 continue
             # noinspection PyCallingNonCallable
-            self._consumer_callbacks[consumer_tag](message)
+            callback(message)
 
     def rpc_request(self, frame_out, connection_adapter=None):
         """Perform a RPC Request.
